@@ -104,12 +104,14 @@ prop('C06',
      assumptions=[A_VERUS, A_EXTRACT, A_PTREQ, A_TERM,
                   'A-scratch: the per-node scratch memo read by cond_helper is modelled as empty (nothing in the crate stores a BddPtr there; its set_scratch line is commented out)',
                   'A-unsafe: the unique table of StandardDecisionNNFBuilder returns a reference to a node equal to its argument (proved for the real table in unit `table`)',
-                  'A-lit-iter: in unit dnnf the `impl Iterator<Item = Literal>` parameter of conjoin_implied is the trusted container LitIter; verif_lits_vec stands for draining it; Literal is the two-field stub of A-lit'],
+                  'A-lit-iter: in unit dnnf the `impl Iterator<Item = Literal>` parameter of conjoin_implied is the trusted container LitIter; verif_lits_vec stands for draining it; Literal is the two-field stub of A-lit',
+                  'A-sat (assumed contract of a dependency, trusted/sat_stub.rs): SATSolver is an opaque stub -- a stack of partial models; decide either reports UNSAT (no assignment extending the model and the literal satisfies the formula) and leaves the stack alone, or pushes a model extending the top one by the literal and by literals ENTAILED by the formula (SAT: every extension satisfies the formula); a model that assigns every variable satisfies the formula; pop removes the top model; difference_iter() yields exactly the new assignments; SATSolver::new returns None iff a conflict at the start, else the stack [empty model, entailed literals].  Nothing of src/repr/unit_prop.rs is verified (C09 not applicable)',
+                  'A-reshash: component caching is assumed sound -- two solver states with equal 128-bit residual hashes are interchangeable for diagram validity (on the real code: the prime-product hash identifies the residual formula and diagrams mention residual variables only); FxHashMap is the weak stub of A-fxhashmap; Cnf is the stub of A-cnf-stub with an uninterpreted truth function csem_of(id, env)'],
      replay='dnnf',
      explanation='last sentence of the property: DecisionNNFBuilder::cond_helper / TopDownBuilder::condition carry  forall env. ptr_sem(r, env) == ptr_sem(bdd, upd(env, lbl, value))  '
-                 'for regular AND complemented pointers of any diagram in which no path decides a variable twice (no ordering assumption); var and the standard store get_or_insert are under contract; conjoin_implied (the step by which unit-propagated literals enter a diagram) returns the diagram conjoined with the literals and keeps "decides once"',
+                 'for regular AND complemented pointers of any diagram in which no path decides a variable twice (no ordering assumption); var and the standard store get_or_insert are under contract; conjoin_implied (the step by which unit-propagated literals enter a diagram) returns the diagram conjoined with the literals and keeps "decides once".  First sentence of the property, RELATIVE to the assumed solver interface (A-sat) and cache soundness (A-reshash): topdown_h returns a diagram that agrees with the formula on every assignment extending the current partial model, decides no variable twice and none that the model assigns, restores the solver stack and keeps the component cache valid; compile_cnf_topdown returns a diagram with exactly the models of the formula in which no path decides a variable twice',
      not_covered=[
-         'exactness of topdown_h / compile_cnf_topdown (false iff unsatisfiable, models = CNF models, decides once): conditional on SATSolver (C09, not applicable) and on the 128-bit residual hash identifying residual formulas [bounded check `dnnf` only, both node stores]',
+         'topdown_h / compile_cnf_topdown are proved only RELATIVE to the assumed solver contract A-sat and cache soundness A-reshash: a defect inside SATSolver (unit propagation, the residual hash) is invisible to the proof [bounded check `dnnf`, both node stores]; "returns the false constant exactly when unsatisfiable": the proof gives "denotes false"; that an unsatisfiable formula yields the CONSTANT (not a node denoting false) is [bounded check `dnnf` only; it found the defect fixed in 36ba41f]',
          'conjoin_implied is under contract with two declared rewrites: its `impl Iterator<Item = Literal>` parameter is the trusted container LitIter and the loop iterates the vector it stands for (A-lit-iter); proved: the result is the diagram conjoined with every implied literal and still decides each variable once, provided the literals are on distinct variables the diagram does not decide -- the callers (topdown_h) are not under contract',
          'SemanticDecisionNNFBuilder (semantic-hash node store): C11',
      ])
